@@ -387,6 +387,15 @@ func nullSafeComparisonOptions() []expr.Option {
 			return compareNonNull(op, params[0], params[1]), nil
 		}, new(func(any, any) any)))
 	}
+	// NULL LIKE p is unknown. The normal program fails on it (like_match wants a
+	// string); failing here as well rejected the row although the rest of the
+	// predicate was true: `x LIKE 'a_' OR y IS NULL`.
+	opts = append(opts, expr.Function("like_match", func(params ...any) (any, error) {
+		if len(params) == 2 && isNilValue(params[0]) {
+			return nil, nil
+		}
+		return likeMatch(params...)
+	}))
 	return append(opts, expr.Patch(nullSafeComparisonPatcher{}))
 }
 
